@@ -3,6 +3,7 @@ package simrt
 import (
 	"cmp"
 	"slices"
+	"sync"
 )
 
 // MapKeys replaces `range m` over maps with ordered keys in rare's own packages: the keys are
@@ -34,4 +35,55 @@ func MapKeys[M ~map[K]V, K cmp.Ordered, V any](site string, m M) []K {
 	}
 	ProbeN("map-range-permuted", 1)
 	return keys
+}
+
+// Pool replaces sync.Pool in the instrumented tree. sync.Pool may hand back any item or none (per-P caches, emptied
+// by the garbage collector): a nondeterminism the simulator has to own. Under the scheduler the pool is a LIFO
+// stack and the tape decides, one time in eight, that an item was dropped meanwhile; in free-run mode it is the
+// real sync.Pool.
+type Pool struct {
+	New   func() any
+	real  sync.Pool
+	items []any
+}
+
+func (p *Pool) Get() any {
+	s := active.Load()
+	if s == nil || s.Opts.Mode == ModeFree {
+		if v := p.real.Get(); v != nil {
+			return v
+		}
+		if p.New != nil {
+			return p.New()
+		}
+		return nil
+	}
+	s.mu.Lock()
+	var v any
+	if n := len(p.items); n > 0 {
+		v = p.items[n-1]
+		p.items = p.items[:n-1]
+	}
+	s.mu.Unlock()
+	if v != nil && s.Tape.F(8) == 7 {
+		v = nil // collected meanwhile
+	}
+	if v == nil && p.New != nil {
+		v = p.New()
+	}
+	return v
+}
+
+func (p *Pool) Put(x any) {
+	if x == nil {
+		return
+	}
+	s := active.Load()
+	if s == nil || s.Opts.Mode == ModeFree {
+		p.real.Put(x)
+		return
+	}
+	s.mu.Lock()
+	p.items = append(p.items, x)
+	s.mu.Unlock()
 }
